@@ -59,6 +59,10 @@ impl<T: UciTx, H: Heuristic, M: MoveOrder> Search<T, H, M> {
                     UciQuit => {
                         self.flags.quit_as_soon_as_possible = true;
                     }
+                    #[cfg(inkayaku_verif)]
+                    SearchMessage::VerifDumpFen(reply) => {
+                        reply.send(Fen::from(&self.state.bitboard).fen).ok();
+                    }
                 }
             }
         }
@@ -113,6 +117,10 @@ impl<T: UciTx, H: Heuristic, M: MoveOrder> Search<T, H, M> {
                     UciQuit => {
                         self.flags.stop_as_soon_as_possible = true;
                         self.flags.quit_as_soon_as_possible = true;
+                    }
+                    #[cfg(inkayaku_verif)]
+                    SearchMessage::VerifDumpFen(..) => {
+                        // only answered while idle
                     }
                 },
                 Err(error) => {
@@ -251,6 +259,9 @@ impl<T: UciTx, H: Heuristic, M: MoveOrder> Search<T, H, M> {
                 self.state.bitboard.calculate_zobrist_pawn_hash(),
             );
 
+            #[cfg(inkayaku_verif)]
+            verif_hooks::note_iteration(depth as u64, self.state.metrics.last.negamax_nodes);
+
             let elapsed = self.state.elapsed();
 
             let too_little_time = elapsed > max_thinking_time.div(3);
@@ -323,6 +334,15 @@ impl<T: UciTx, H: Heuristic, M: MoveOrder> Search<T, H, M> {
                     return ValuedMove::leaf(0);
                 }
             }
+        }
+
+        #[cfg(inkayaku_verif)]
+        match verif_hooks::abort_kind_at(self.state.metrics.last.negamax_nodes) {
+            // as if check_messages() had just received UciStop
+            1 => { self.flags.stop_as_soon_as_possible = true; }
+            // as if the move time had just been found exceeded
+            2 => { self.flags.stop_as_soon_as_possible = true; return ValuedMove::leaf(0); }
+            _ => {}
         }
 
         self.state.metrics.increment_negamax_nodes();
@@ -603,6 +623,41 @@ pub enum SearchMessage {
     UciStop,
     UciPonderHit,
     UciQuit,
+    #[cfg(inkayaku_verif)]
+    VerifDumpFen(std::sync::mpsc::Sender<String>),
+}
+
+/// Test points for the verification harness in /verif: an injectable abort at a chosen negamax node
+/// (taking the same code path as a polled `stop` or an expired move time) and a per-iteration node log.
+#[cfg(inkayaku_verif)]
+pub mod verif_hooks {
+    use std::sync::atomic::{AtomicU64, AtomicU8, Ordering};
+    use std::sync::Mutex;
+
+    static ABORT_AT: AtomicU64 = AtomicU64::new(u64::MAX);
+    static ABORT_KIND: AtomicU8 = AtomicU8::new(0);
+    static ITERATIONS: Mutex<Vec<(u64, u64)>> = Mutex::new(Vec::new());
+
+    /// kind: 0 off, 1 stop observed at node `at`, 2 move time found exceeded at node `at`
+    pub fn arm_abort(at: u64, kind: u8) {
+        ABORT_AT.store(at, Ordering::SeqCst);
+        ABORT_KIND.store(kind, Ordering::SeqCst);
+    }
+
+    pub fn disarm_abort() { arm_abort(u64::MAX, 0); }
+
+    pub(super) fn abort_kind_at(negamax_nodes: u64) -> u8 {
+        if ABORT_AT.load(Ordering::SeqCst) == negamax_nodes { ABORT_KIND.load(Ordering::SeqCst) } else { 0 }
+    }
+
+    pub(super) fn note_iteration(depth: u64, negamax_nodes: u64) {
+        if let Ok(mut log) = ITERATIONS.lock() { log.push((depth, negamax_nodes)); }
+    }
+
+    /// (depth, negamax nodes so far in this go) at the end of every iteration since the last call
+    pub fn take_iterations() -> Vec<(u64, u64)> {
+        ITERATIONS.lock().map(|mut log| std::mem::take(&mut *log)).unwrap_or_default()
+    }
 }
 
 /// UCI options
